@@ -345,6 +345,50 @@ pub fn run(ctx: &Ctx) -> Rep {
     let (r2, x2) = merge_states(s2);
     rep.merge(r2);
 
+    // ---- (2b) all-card patterns with the repeated card at every rank position ------------------
+    // Uniqueness tests that sort first can go wrong only for a duplicate at one end of the sorted hand:
+    // for every set partition and every block, that block in turn gets the numerically smallest and
+    // the numerically largest card of the hand (all blocks real cards).
+    let s2b = par_run(ctx, jobs.len(), mk, |st, ji| {
+        let (n, part) = &jobs[ji];
+        let n = *n;
+        let nb = *part.iter().max().unwrap() as usize + 1;
+        let mut rng = Rng::new(seed, 0xC04_1800 + ji as u64);
+        for b in 0..nb {
+            for extreme in 0..2 {
+                for _ in 0..k_inst {
+                    // nb distinct cards, sorted by word
+                    let mut deck: Vec<u8> = (0..52).collect();
+                    rng.shuffle(&mut deck);
+                    let mut ws: Vec<u32> = deck[..nb].iter().map(|&i| model::word(i)).collect();
+                    ws.sort_unstable();
+                    // block b gets the smallest (extreme 0) or largest (extreme 1) word, the others the rest in seeded order
+                    let special = if extreme == 0 { ws.remove(0) } else { ws.pop().unwrap() };
+                    rng.shuffle(&mut ws);
+                    let mut block_word = [0u32; 7];
+                    let mut k = 0;
+                    for j in 0..nb {
+                        if j == b {
+                            block_word[j] = special;
+                        } else {
+                            block_word[j] = ws[k];
+                            k += 1;
+                        }
+                    }
+                    let mut h = [0u32; 7];
+                    for sl in 0..n {
+                        h[sl] = block_word[part[sl] as usize];
+                    }
+                    check_hand(st, &h[..n]);
+                    st.x.patterns[n] += 1;
+                    st.x.hashes.insert(drive::hash_words(&h[..n]) ^ n as u64);
+                }
+            }
+        }
+    });
+    let (r2b, x2b) = merge_states(s2b);
+    rep.merge(r2b);
+
     // ---- (3) all ordered arrays over {52 cards, blank} ------------------------
     // n = 2, 3, 4 (and 5 in the thorough tier); units = first two slots
     let sizes: Vec<usize> = if ctx.smoke() { vec![2] } else if ctx.thorough() { vec![2, 3, 4, 5] } else { vec![2, 3, 4] };
@@ -422,7 +466,7 @@ pub fn run(ctx: &Ctx) -> Rep {
     rep.merge(r5);
 
     let mut acc = mk();
-    for x in x1.into_iter().chain(x1b).chain(x2).chain(x3).chain(x4).chain(x5) {
+    for x in x1.into_iter().chain(x1b).chain(x2).chain(x2b).chain(x3).chain(x4).chain(x5) {
         for k in 0..8 {
             acc.valid[k] += x.valid[k];
             acc.invalid[k] += x.invalid[k];
@@ -458,7 +502,7 @@ pub fn run(ctx: &Ctx) -> Rep {
     rep.rule = format!(
         "(1) all 2^32 words (a 1-in-16 share of the 2^16-word blocks in the checked leg) placed in {} next to distinct real cards, \
          and every word within Hamming distance 2 of a card or blank in every slot of every size; (2) for n=2..7 every set partition of the slots x every assignment of \
-         {{card, blank, near-miss, arbitrary}} to the blocks x {} seeded instantiations; (3) all ordered arrays over {{52 cards, blank}} for n in {:?}; \
+         {{card, blank, near-miss, arbitrary}} to the blocks x {} seeded instantiations, and all-card instantiations with each block in turn holding the smallest / largest card; (3) all ordered arrays over {{52 cards, blank}} for n in {:?}; \
          (4) all 2,598,960 valid five-card hands; (5) {} seeded hands per size 5..7. distinct = enumerated cases (1,3,4) + hash-set count of the generated hands (2,5); \
          every case is non-trivial (each runs the validity oracle against the crate)",
         if every_slot { "every slot of every size 2..7" } else { "one seeded slot of a Two (and of a Five for 1-in-16 blocks)" },
